@@ -144,7 +144,34 @@ pub fn run_batch(args: BatchArgs) -> i32 {
             let fns: Vec<String> = case.fns.iter().map(|f| format!("{} #[{}]", spec(*f).fn_name, spec(*f).attrs)).collect();
             b.res.samples.push(serde_json::json!({"run": run, "run_seed": seed, "functions": fns, "case": case}));
         }
-        if let Some((i, c)) = ex.deviation {
+        if let Some((i, mut c)) = ex.deviation {
+            // controls: a symptom that C13 / C14 own only because an invalidation happened earlier in
+            // the run / because several actors took part is re-examined without that ingredient; if
+            // it fails the same way the invalidation / the other threads are not the cause
+            if c.owned_by(&prop) && prop == "C13" && !c.name.starts_with("inv_") && c.name != "collateral_invalidation" {
+                let mut ctl = case.clone();
+                ctl.ops.truncate(i + 1);
+                ctl.ops.retain(|op| !matches!(op, Op2::InvTag(_) | Op2::InvEvent(_) | Op2::InvDep(_) | Op2::InvName(_) | Op2::InvWith { .. } | Op2::InvAllWith(_)));
+                if child_fails(&args, &[ctl], "C13", "*") {
+                    c.owners.retain(|o| o != "C13");
+                    b.res.counters.inc("control.fails_without_invalidation_too");
+                }
+            }
+            if c.owned_by(&prop) && prop == "C14" && case.actors > 1 {
+                let mut ctl = case.clone();
+                ctl.ops.truncate(i + 1);
+                ctl.ops.retain(|op| !matches!(op, Op2::Respawn(_)));
+                for op in ctl.ops.iter_mut() {
+                    if let Op2::Call { a, .. } = op {
+                        *a = 0;
+                    }
+                }
+                ctl.actors = 1;
+                if child_fails(&args, &[ctl], "C14", "*") {
+                    c.owners.retain(|o| o != "C14");
+                    b.res.counters.inc("control.fails_on_one_thread_too");
+                }
+            }
             if c.owned_by(&prop) {
                 let (seq, clause, at) = reproduce_and_minimise(&args, &case, run, &prop, &c, i);
                 let last = seq.last().expect("case");
@@ -283,7 +310,7 @@ pub fn replay(rp: &Replay, path: &str, quiet: bool) -> i32 {
         println!("  {l}");
     }
     match ex.deviation {
-        Some((i, c)) if c.name == rp.clause && c.owned_by(&rp.property) => {
+        Some((i, c)) if rp.clause == "*" || (c.name == rp.clause && c.owned_by(&rp.property)) => {
             if !quiet {
                 println!("VIOLATION property={} replay={}", rp.property, path);
                 println!("  clause={} at operation {i}: {}", c.name, c.detail);
